@@ -110,6 +110,23 @@ CHECKS["C16"] = dict(category="model_checking",
     design_ref="5/C16",
     note="Closure is observed through grpc.ClientConn.GetState()==Shutdown on real lazy connections; a double Close is not observable. Schedules are sampled with delays at the conn.wait/dial.failed hooks.",
     technique="TLA+ model (Connection.tla + mutants) exhaustive TLC; trace validation of real connection.Manager executions (ConnectionTrace.tla)")
+CHECKS["C13"] = dict(category="model_checking",
+    text="Manager.tla (session automaton of one target with Remove/Reconnect/receive-timeout) is model-checked against the callback discipline automaton ManagerDisc, SilenceAfterRemove and the liveness "
+         "properties RemoveTerminates/Retried; three mutant configurations must yield counterexamples. A real manager.Manager runs against scripted gNMI servers over localhost gRPC with scripted session "
+         "outcomes, dial refusals and a controller issuing Add/Remove/Reconnect at random moments; every callback and call is validated by TLC against ManagerTrace.tla (same automaton), incl. no callback after "
+         "Remove returned, refused duplicate/unknown targets, and a retry after a forced failure within 5 s.",
+    design_ref="5/C13",
+    note="Callbacks are logged inside the callback under one mutex; controller calls are not issued from inside callbacks; timing bounds 5 s/10 s against 5-20 ms back-off. Sessions are scripted "
+         "server-side (the client-side stream-open hook of the manager is unexported), so 'Connect only after the first message' is checked as 'Connect is immediately followed by that message's callback'.",
+    technique="TLA+ model (Manager.tla + ManagerDisc + mutants, incl. liveness) exhaustive TLC; trace validation of real manager.Manager over scripted gRPC (ManagerTrace.tla)")
+CHECKS["C18"] = dict(category="model_checking",
+    text="Reconnect.tla (Subscribe loop x Close) is model-checked incl. liveness for Close at every program point; two mutant configurations must yield counterexamples. The real client.Reconnect(BaseClient) is "
+         "driven with a scripted Impl (Close fired at every kind of point incl. the back-off sleep) and with the real gnmi Impl against a scripted gRPC server; TLC validates the recorded events against "
+         "ReconnectTrace.tla: D/R callback alternation, Subscribe returning right after a disconnect, Connected first and ordered updates per stream, at most one message's notifications after Close returned; "
+         "overdue calls are hang events.",
+    design_ref="5/C18",
+    note="The scripted Impl honours cancellation like a real transport. Termination bound after Close: 750 ms (first back-off uses the library default, DESIGN note N5) + 20x RetryMaxDelay + 5 s.",
+    technique="TLA+ model (Reconnect.tla + mutants, incl. liveness) exhaustive TLC; trace validation of real client.Reconnect executions (ReconnectTrace.tla)")
 
 NOT_YET = {
 }
